@@ -60,6 +60,7 @@ TRUSTED_BASE = [
     "comparator's real input), verif_tracked_paths_match_on_output (override of the buffer the loop scans)",
 ]
 ASSUMPTIONS = [
+    "the target of a remap is a commit id (hex): the rewrite inserts it without JSON escaping",
     "commit dates pinned: the rewritten commits have the same ids in copy A and copy B (checked per scenario)",
     "line texts are pairwise distinct in a scenario (World), so 'the line survives to the end of the range' is "
     "decided by text membership",
@@ -141,7 +142,7 @@ def jsets(d):
     return {p: {h: sorted(s) for h, s in v.items()} for p, v in d.items()}
 
 
-def compare_notes(na, nb, sha, added, surviving):
+def compare_notes(na, nb, sha, added, surviving, clean):
     """-> dict(full, restricted, classes, bad, detail).  `bad` lists differences outside every known class."""
     res = {"full": True, "restricted": True, "classes": [], "bad": [], "detail": {}}
     if na is None or nb is None:
@@ -162,29 +163,35 @@ def compare_notes(na, nb, sha, added, surviving):
     sa, sb = note_sets(na), note_sets(nb)
     ra, rb = restrict(sa, added), restrict(sb, added)
     va, vb = restrict(sa, surviving), restrict(sb, surviving)
+    ca, cb = restrict(sa, clean), restrict(sb, clean)
     if sa != sb:
         res["full"] = False
         d["lines"] = {"A": jsets(sa), "B": jsets(sb)}
-        if ra == rb:
+        if restrict(sa, added) != sa or restrict(sb, added) != sb:
             res["classes"].append("K1")
-        else:
+        if ra != rb:
             res["restricted"] = False
             d["restricted_lines"] = {"A": jsets(ra), "B": jsets(rb), "added": {p: sorted(v) for p, v in added.items()}}
             if va == vb:
                 res["classes"].append("K2")
-                if restrict(sa, added) != sa or restrict(sb, added) != sb:
-                    res["classes"].append("K1")
+            elif ca == cb:
+                if {p: v for p, v in surviving.items()} != {p: v for p, v in added.items()} and \
+                        restrict(ra, {p: set(added[p]) - set(surviving.get(p, ())) for p in added}) != \
+                        restrict(rb, {p: set(added[p]) - set(surviving.get(p, ())) for p in added}):
+                    res["classes"].append("K2")
+                res["classes"].append("K5")
             else:
-                res["bad"].append("line sets differ on added lines that survive to the end of the range")
-                d["surviving_lines"] = {"A": jsets(va), "B": jsets(vb)}
+                res["bad"].append("line sets differ on added lines that survive to the end of the range and lie in no "
+                                  "mixed-author hunk")
+                d["clean_lines"] = {"A": jsets(ca), "B": jsets(cb)}
     pa, pb = na["prompts"], nb["prompts"]
     if pa != pb:
         res["full"] = False
-        ha = set(h for v in va.values() for h in v)
-        hb = set(h for v in vb.values() for h in v)
+        ha = set(h for v in ca.values() for h in v)
+        hb = set(h for v in cb.values() for h in v)
         if prompt_ident(pa, ha) != prompt_ident(pb, hb) or None in prompt_ident(pa, ha).values():
             res["restricted"] = False
-            res["bad"].append("prompt records (identity fields) of the sessions named on surviving added lines differ")
+            res["bad"].append("prompt records (identity fields) of the sessions named on the compared lines differ")
             d["prompt_ident"] = {"A": prompt_ident(pa, ha), "B": prompt_ident(pb, hb)}
         if set(pa) != set(pb):
             if "K1" not in res["classes"]:
@@ -437,17 +444,31 @@ def scenario(args):
         remap_cases, per_commit = [], []
         last = A["new"][-1]
         head_lines = {}
+        line_class = {}        # text -> "K2" | "K5" | None for every line added in the range
         for pos_, (sa, sb) in enumerate(zip(A["new"], B["new"])):
             na, nb = simA.note(sa), simB.note(sb)
             ba = _note_blob(simA, sa)
             added = hist.git_added_lines(simA, sa)
-            surviving = {}
+            surviving, clean = {}, {}
             for p, ls in added.items():
                 if p not in head_lines:
                     head_lines[p] = set(_lines_at(simA, last, p))
                 cur = _lines_at(simA, sa, p)
-                surviving[p] = set(i for i in ls if 1 <= i <= len(cur) and cur[i - 1] in head_lines[p])
-            c = compare_notes(na, nb, sa, added, surviving)
+                ok_ls = sorted(i for i in ls if 1 <= i <= len(cur))
+                surviving[p] = set(i for i in ok_ls if cur[i - 1] in head_lines[p])
+                # maximal runs of consecutive added lines; a run is mixed when the ground truth has >= 2 authors in it
+                mixed, run = set(), []
+                for i in ok_ls + [None]:
+                    if run and (i is None or i != run[-1] + 1):
+                        if len(set(w.author_of.get(cur[j - 1], "?") for j in run)) >= 2:
+                            mixed |= set(run)
+                        run = []
+                    if i is not None:
+                        run.append(i)
+                clean[p] = surviving[p] - mixed
+                for i in ok_ls:
+                    line_class[cur[i - 1]] = "K2" if i not in surviving[p] else ("K5" if i in mixed else None)
+            c = compare_notes(na, nb, sa, added, surviving, clean)
             per_commit.append({"full": c["full"], "restricted": c["restricted"], "classes": c["classes"]})
             if A["fired"]:
                 if orig_notes.get(originals[pos_]) is not None and ba is not None:
@@ -468,26 +489,32 @@ def scenario(args):
             bla, blb = _blame_all(simA, sa), _blame_all(simB, sb)
             if bla == blb:
                 continue
-            bad = {}
+            bad, classes = {}, set()
             for p in set(bla) | set(blb):
                 if bla.get(p) == blb.get(p):
                     continue
                 if bla.get(p) is None or blb.get(p) is None:
                     bad[p] = "blame failed"
                     continue
-                if p not in head_lines:
-                    head_lines[p] = set(_lines_at(simA, last, p))
                 cur = _lines_at(simA, sa, p)
                 dl = [i for i in set(bla[p]) | set(blb[p]) if bla[p].get(i) != blb[p].get(i)]
-                out_k2 = [i for i in dl if not (1 <= i <= len(cur)) or cur[i - 1] in head_lines[p]]
-                if out_k2:
-                    bad[p] = {"lines": out_k2, "A": {i: bla[p].get(i) for i in out_k2}, "B": {i: blb[p].get(i) for i in out_k2}}
+                out_known = []
+                for i in dl:
+                    cl = line_class.get(cur[i - 1]) if 1 <= i <= len(cur) else None
+                    if cl is None:
+                        out_known.append(i)
+                    else:
+                        classes.add(cl)
+                if out_known:
+                    bad[p] = {"lines": out_known, "A": {i: bla[p].get(i) for i in out_known},
+                              "B": {i: blb[p].get(i) for i in out_known}}
             if bad:
-                res["failures"].append({"what": "git-ai blame differs between shortcut and full replay on surviving lines",
+                res["failures"].append({"what": "git-ai blame differs between shortcut and full replay outside the known classes",
                                         "rev": sa, "is_head": sa == last, "diff": bad})
             elif A["fired"]:
-                res["known"].append({"class": "C15-K2", "position": A["new"].index(sa) + 1, "range": len(A["new"]),
-                                     "via": "blame"})
+                for cl in sorted(classes):
+                    res["known"].append({"class": "C15-" + cl, "position": A["new"].index(sa) + 1, "range": len(A["new"]),
+                                         "via": "blame"})
             else:
                 res["failures"].append({"what": "shortcut declined but blame differs", "rev": sa})
         res["trace"] = w.trace
@@ -557,3 +584,473 @@ def plan(tier):
             for k in range(1, n + 1):
                 items.append({"kind": "rebase_exec_k", "ncom": n, "k": k})
     return items
+
+
+# ------------------------------------------------------------------ in-process generators
+HEXD = "0123456789abcdef"
+PATHS = [b"a.txt", b"src/b.rs", b"c d.py", "dir \u00e9/\u00fc n.txt".encode(), "\u65e5\u672c \u8a9e.md".encode(), b"x[1].txt",
+         b"new\n:name", b"\n", b":colon", b"a\n\nb", b"tab\there", b"q\"uote", b"-dash", b" lead", b"trail ",
+         b"very/" + b"deep/" * 12 + b"f", b":100644 100644 x", b"\xff\xfe raw bytes"]
+
+
+def gen_oid(r):
+    return "".join(r.pick(HEXD) for _ in range(40)).encode()
+
+
+def gen_rec(r):
+    st = r.weighted([(40, b"M"), (15, b"A"), (15, b"D"), (8, b"T"), (10, b"R100"), (4, b"R087"), (4, b"C075"), (4, b"U")])
+    z = b"0" * 40
+    om, nm = b"100644", r.pick([b"100644", b"100755", b"120000"])
+    oo, no = gen_oid(r), gen_oid(r)
+    if st == b"A":
+        om, oo = b"000000", z
+    if st == b"D":
+        nm, no = b"000000", z
+    p = r.pick(PATHS)
+    p2 = r.pick(PATHS) if st[:1] in (b"R", b"C") else None
+    return {"meta": [om, nm, oo, no, st], "path": p, "path2": p2}
+
+
+def gen_secs(r, shape=None):
+    n = r.weighted([(30, 1), (25, 2), (20, 3), (10, 4), (8, 6), (5, 12), (2, 40)])
+    secs = []
+    only = None
+    if shape == "exactly_one":
+        only = r.below(n)
+    for i in range(n):
+        hdr = gen_oid(r) + b" " + gen_oid(r)
+        if shape == "none":
+            k = 0
+        elif shape == "exactly_one":
+            k = r.range(1, 3) if i == only else 0
+        else:
+            k = r.weighted([(55, 0), (25, 1), (15, 2), (5, 5)])
+        secs.append((hdr, [gen_rec(r) for _ in range(k)]))
+    return secs, (only + 1 if only is not None else None)
+
+
+def py_limit(secs, tracked):
+    ts = set(tracked)
+    return [(h, [x for x in recs if x["path"] in ts or (x["path2"] is not None and x["path2"] in ts)]) for h, recs in secs]
+
+
+def mutate_out(r, data, n):
+    """malformed stream -> (kind, bytes, npairs)"""
+    k = r.weighted([(25, "truncate"), (10, "drop_nl"), (10, "blank_lines"), (10, "colon_line"), (10, "more_pairs"),
+                    (10, "fewer_pairs"), (10, "soup"), (5, "crlf"), (5, "empty"), (5, "tail_junk")])
+    b = bytearray(data)
+    if k == "truncate":
+        b = b[:r.below(len(b) + 1)]
+    elif k == "drop_nl":
+        idx = [i for i, c in enumerate(b) if c == 10]
+        if idx:
+            del b[r.pick(idx)]
+    elif k == "blank_lines":
+        idx = [i for i, c in enumerate(b) if c == 10]
+        if idx:
+            i = r.pick(idx)
+            b[i:i] = b"\n" * r.range(1, 3)
+    elif k == "colon_line":
+        idx = [0] + [i + 1 for i, c in enumerate(b) if c == 10]
+        i = r.pick(idx)
+        b[i:i] = r.pick([b":junk\n", b":", b"\n:x\0y\0", b":100644 100644 a b M\0p\0"])
+    elif k == "more_pairs":
+        n = n + r.range(1, 3)
+    elif k == "fewer_pairs":
+        n = max(0, n - r.range(1, 2))
+    elif k == "soup":
+        alpha = [b"\n", b":", b"\0", b"a", b" ", b"0", b"\r", b"M"]
+        b = bytearray(b"".join(r.pick(alpha) for _ in range(r.range(0, 30))))
+        n = r.range(0, 4)
+    elif k == "crlf":
+        b = bytearray(bytes(b).replace(b"\n", b"\r\n"))
+    elif k == "empty":
+        b = bytearray()
+        n = r.range(0, 3)
+    else:
+        b += r.pick([b"\n", b"\n\n:late\n", b"junk", b"junk\n:x", b":\n"])
+    return k, bytes(b), n
+
+
+MARK = '"base_commit_sha"'
+NOTE_PATHS = ["a.txt", "src/b.rs", "c d.py", "dir \u00e9/\u00fc n.txt", "x[1].txt", "tab\there",
+              MARK, MARK + ':"x".txt', MARK + ': "y"', "pre " + MARK + " :\t\"z\" post", "base_commit_sha", '"base_commit_sha',
+              'k"' + MARK[1:] + ':"v"', MARK + ":", MARK + ':"unterminated', MARK + ':"esc\\', "back\\slash", MARK + " x"]
+TEXTS = ["hello", "set " + MARK + ': "zzz" please', "back\\slash \\\" q", "multi\nline\r\ntext", "\u00e9\u65e5\u672c\U0001F600", "",
+         MARK, '{"base_commit_sha":"inner"}', "tab\t\x01ctl"]
+
+
+def gen_note(r):
+    """-> (kind, note_text, target, valid, marker_in_att)"""
+    kind = r.weighted([(50, "valid_pretty"), (10, "valid_compact"), (8, "crlf"), (6, "ws_variants"), (5, "escaped_base"),
+                       (4, "no_base"), (4, "base_after_prompts"), (4, "non_string_base"), (3, "unterminated"),
+                       (3, "no_divider"), (3, "soup")])
+    files = []
+    for _ in range(r.weighted([(10, 0), (40, 1), (30, 2), (20, 3)])):
+        p = r.weighted([(70, None), (30, "marker")])
+        path = r.pick(NOTE_PATHS[:6]) if p is None else r.pick(NOTE_PATHS[6:])
+        if path not in [f[0] for f in files]:
+            files.append((path, "".join(r.pick(HEXD) for _ in range(16)), r.range(1, 9)))
+    att = ""
+    for path, h, a in files:
+        q = path
+        if any(ch in path for ch in " \t\n"):
+            q = '"' + path + '"'
+        att += q + "\n" + f"  {h} {a}-{a + 2}\n"
+    prompts = {}
+    for path, h, a in files:
+        if r.chance(2, 3):
+            prompts[h] = {"agent_id": {"tool": "t", "id": r.pick(["s1", "s2", MARK]), "model": "m"},
+                          "human_author": r.pick([None, "A <a@b>"]),
+                          "messages": [{"type": "user", "text": r.pick(TEXTS)} for _ in range(r.range(0, 2))],
+                          "total_additions": r.below(9), "total_deletions": r.below(9), "accepted_lines": r.below(9),
+                          "overriden_lines": r.below(9)}
+    base = r.pick(["", "".join(r.pick(HEXD) for _ in range(40)), "abc123", "initial"])
+    md = {"schema_version": "authorship/3.0.0", "git_ai_version": r.pick(["1.1.8", "development:1.1.8"]),
+          "base_commit_sha": base, "prompts": prompts}
+    target = r.weighted([(85, "".join(r.pick(HEXD) for _ in range(40))), (5, ""), (5, "t"), (5, "we\"ird\\")])
+    valid = True
+    if kind == "valid_compact":
+        js = json.dumps(md, separators=(",", ":"), ensure_ascii=False)
+    else:
+        js = json.dumps(md, indent=2, ensure_ascii=r.chance(1, 4))
+    text = att + "---\n" + js
+    if kind == "crlf":
+        text = text.replace("\n", "\r\n")
+        valid = False      # judged by correspondence only
+    elif kind == "ws_variants":
+        text = att + "---\n" + js.replace('"base_commit_sha": ', r.pick(['"base_commit_sha" :\n\t ', '"base_commit_sha"\r\n:\r\n  ', '"base_commit_sha":']))
+    elif kind == "escaped_base":
+        md["base_commit_sha"] = r.pick(['a"b', "a\\b", 'x\\"y', "\\", '"', "\u00e9"])
+        text = att + "---\n" + json.dumps(md, indent=2, ensure_ascii=False)
+    elif kind == "no_base":
+        del md["base_commit_sha"]
+        text = att + "---\n" + json.dumps(md, indent=2)
+        valid = False
+    elif kind == "base_after_prompts":
+        md2 = {"schema_version": md["schema_version"], "prompts": prompts, "base_commit_sha": base}
+        text = att + "---\n" + json.dumps(md2, indent=2, ensure_ascii=False)
+    elif kind == "non_string_base":
+        text = att + "---\n" + js.replace(json.dumps(base), r.pick(["5", "null", "[\"x\"]", "{}"]), 1)
+        valid = False
+    elif kind == "unterminated":
+        cut = text.find('"base_commit_sha": "')
+        text = text[:cut + len('"base_commit_sha": "') + r.below(3)] + r.pick(["", "\\", "abc\\"])
+        valid = False
+    elif kind == "no_divider":
+        text = att + js
+        valid = False
+    elif kind == "soup":
+        alpha = [MARK, ":", '"', "\\", " ", "\n", "x", "\t", "\r", "---\n", "{", "}"]
+        text = "".join(r.pick(alpha) for _ in range(r.range(0, 14)))
+        valid = False
+    return kind, text, target, valid, (MARK in att), att
+
+
+def remap_oracle(note, att, full, target):
+    """the property on one valid note: everything except the base field is unchanged (independent of the model)"""
+    if not full.startswith(att + "---\n"):
+        return False, "attestation section changed"
+    try:
+        a = json.loads(note[len(att) + 4:])
+        b = json.loads(full[len(att) + 4:])
+    except Exception:
+        return False, "metadata no longer JSON"
+    if b.get("base_commit_sha") != target:
+        return False, f"base is {b.get('base_commit_sha')!r}, wanted the target"
+    a["base_commit_sha"] = target
+    if a != b:
+        return False, "metadata differs beyond the base field"
+    return True, ""
+
+
+def _mk_cmp_repo(scratch):
+    sim = Sim(scratch, "c15-cmp-repo", mode="plain")
+    os.makedirs(sim.repo, exist_ok=True)
+    sim.realgit("init", "-q", ".")
+    sim.write("tracked", "x\n")
+    sim.realgit("add", "-A")
+    sim.realgit("commit", "-q", "-m", "c")
+    return sim.repo, sim.head()
+
+
+# ------------------------------------------------------------------ the check
+def run(ctx):
+    r = ctx.rng
+    q = ctx.tier == "quick"
+    obligations, violations, known_seen = [], [], {}
+    mism = []
+    distinct = set()
+    cov = {}
+
+    def known(label, n=1):
+        known_seen[label] = known_seen.get(label, 0) + n
+
+    # =============================================================== (2) in-process: comparator
+    repo, head = _mk_cmp_repo(ctx.scratch)
+    os.environ["C15_REPO"], os.environ["C15_HEAD"] = repo, head
+    n_struct = 1500 if q else 40000
+    n_mal = 1200 if q else 30000
+    struct = []
+    shape_hist, first_delta_hist = {}, {}
+    for i in range(n_struct):
+        shape = r.weighted([(50, None), (20, "none"), (30, "exactly_one")])
+        secs, only = gen_secs(r.fork(f"s{i}"), shape)
+        allp = sorted(set([x["path"] for _, rs in secs for x in rs] + [x["path2"] for _, rs in secs for x in rs if x["path2"]]))
+        tk = r.weighted([(40, "some"), (25, "all"), (20, "none"), (15, "other")])
+        if tk == "all":
+            tracked = allp or [b"a.txt"]
+        elif tk == "some":
+            tracked = [p for p in allp if r.chance(1, 2)] or [b"zzz"]
+        elif tk == "none":
+            tracked = [b"unrelated"]
+        else:
+            tracked = [r.pick(PATHS)]
+        lim = py_limit(secs, tracked)
+        expected = all(not rs for _, rs in lim)
+        struct.append((f"st{i}", secs, tracked, print_raw_z(lim), expected, shape, only))
+        shape_hist[str(shape)] = shape_hist.get(str(shape), 0) + 1
+        fd = next((k + 1 for k, (_, rs) in enumerate(lim) if rs), 0)
+        key = f"{len(secs)}:{fd}"
+        first_delta_hist[key] = first_delta_hist.get(key, 0) + 1
+    impl = C.run_cases(C.VHARNESS, "c15-cmp", [(i, C.sx(bl(raw)) + f" {len(secs)}") for i, secs, _, raw, _, _, _ in struct])
+    model = {}
+    if ctx.model_ok:
+        model = C.run_cases(C.driver_path("remap"), "c15-print",
+                            [(i, C.sx(secs_sx(secs)) + " " + C.sx([bl(t) for t in tracked])) for i, secs, tracked, _, _, _, _ in struct])
+    n_oracle_cmp = 0
+    for i, secs, tracked, raw, expected, shape, only in struct:
+        a = impl.get(i)
+        distinct.add(("cmp", raw, len(secs)))
+        n_oracle_cmp += 1
+        if a not in ("0", "1"):
+            violations.append((f"comparator loop failed ({a}) on a printed output", {"kind": "cmp", "out_hex": raw.hex(), "npairs": len(secs)}))
+            continue
+        if (a == "1") != expected:
+            violations.append((f"comparator says {a} on a printed diff-tree output whose tracked deltas are "
+                               f"{'absent' if expected else 'present'}",
+                               {"kind": "cmp", "out_hex": raw.hex(), "npairs": len(secs), "expected": expected}))
+        if ctx.model_ok:
+            m = model.get(i, "")
+            xs = C.sx_parse_many(m) if m and not m.startswith("driver-exception") else []
+            dd = {x[0]: x[1] for x in xs if isinstance(x, list) and len(x) == 2}
+            if not xs:
+                mism.append(f"{i}: model driver failed: {m[:80]}")
+            else:
+                if bytes(dd.get("lim", [])) != raw:
+                    mism.append(f"{i}: model printer differs from the independent printer")
+                if dd.get("ok") != 1:
+                    mism.append(f"{i}: generated deltas are not out_ok in the model")
+                if str(dd.get("m")) != a:
+                    mism.append(f"{i}: comparator model {dd.get('m')} vs impl {a}")
+    # malformed stream
+    mal, mal_hist = [], {}
+    for i in range(n_mal):
+        rr = r.fork(f"m{i}")
+        secs, _ = gen_secs(rr, rr.pick([None, "none", "none", "exactly_one"]))
+        kind, data, n = mutate_out(rr, print_raw_z(secs), len(secs))
+        mal_hist[kind] = mal_hist.get(kind, 0) + 1
+        mal.append((f"ml{i}", data, n, secs, kind))
+    cases = [(i, C.sx(bl(d)) + f" {n}") for i, d, n, _, _ in mal]
+    impl = C.run_cases(C.VHARNESS, "c15-cmp", cases)
+    model = C.run_cases(C.driver_path("remap"), "c15-cmp", cases) if ctx.model_ok else {}
+    for i, data, n, secs, kind in mal:
+        a = impl.get(i)
+        distinct.add(("cmp", data, n))
+        if a not in ("0", "1"):
+            violations.append((f"comparator loop failed ({a}) on malformed output", {"kind": "cmp", "out_hex": data.hex(), "npairs": n}))
+            continue
+        # decline-safe oracle (statement of C15_decline_safe / C15_truncation_safe, checked on the real loop)
+        if a == "1" and n > 0 and data.count(b"\n") < n:
+            violations.append(("comparator says match although the output has fewer header lines than pairs",
+                               {"kind": "cmp", "out_hex": data.hex(), "npairs": n}))
+        if a == "1" and kind == "truncate" and n == len(secs) and n > 0:
+            if data != print_raw_z([(h, []) for h, _ in secs]):
+                violations.append(("comparator says match on a truncated output that is not the complete no-delta output",
+                                   {"kind": "cmp", "out_hex": data.hex(), "npairs": n}))
+        if ctx.model_ok and model.get(i) != a:
+            mism.append(f"{i} ({kind}): comparator model {model.get(i)} vs impl {a} on {data[:60]!r} n={n}")
+    cov["comparator_cases"] = {"structured": len(struct), "malformed": len(mal), "shapes": shape_hist,
+                               "malformed_kinds": mal_hist,
+                               "first_delta_pair_by_npairs(n:k, k=0 none)": dict(sorted(first_delta_hist.items())[:40])}
+
+    # =============================================================== (2) in-process: remap
+    n_notes = 2500 if q else 60000
+    notes, nk_hist = [], {}
+    for i in range(n_notes):
+        kind, text, target, valid, mk_att, att = gen_note(r.fork(f"n{i}"))
+        nk_hist[kind] = nk_hist.get(kind, 0) + 1
+        notes.append((f"nt{i}", kind, text, target, valid, mk_att, att))
+    # corpus: the Coq witness of C15_remap_refuted
+    wit = ('"base_commit_sha":"x".txt\n  abcd 1\n---\n{\n  "schema_version": "authorship/3.0.0",\n  "git_ai_version": "1.1.8",\n'
+           '  "base_commit_sha": "0ld",\n  "prompts": {}\n}')
+    notes.append(("wit", "witness", wit, "n3w", True, True, '"base_commit_sha":"x".txt\n  abcd 1\n'))
+    cases = [(i, C.sx(bl(t.encode())) + " " + C.sx(bl(tg.encode()))) for i, _, t, tg, _, _, _ in notes]
+    impl = C.run_cases(C.VHARNESS, "c15-remap", cases)
+    model = C.run_cases(C.driver_path("remap"), "c15-remap", cases) if ctx.model_ok else {}
+    n_wf = n_valid = n_k4 = 0
+    wit_ok = False
+    for i, kind, text, target, valid, mk_att, att in notes:
+        a = impl.get(i)
+        distinct.add(("remap", text, target))
+        if a is None or a == "panic":
+            violations.append((f"remap panicked / harness died on a {kind} note", {"kind": "remap", "note": text, "target": target}))
+            continue
+        xa = {x[0]: x[1:] for x in C.sx_parse_many(a) if isinstance(x, list)}
+        full = bytes(xa["full"][0]).decode("utf-8", "replace")
+        wf = None
+        if ctx.model_ok:
+            m = model.get(i, "")
+            if not m or m.startswith("driver-exception"):
+                mism.append(f"{i}: model driver failed on a {kind} note")
+            else:
+                xm = {x[0]: x[1:] for x in C.sx_parse_many(m) if isinstance(x, list)}
+                wf = xm["wf"][0] == 1
+                if xm["try"] != xa["try"]:
+                    mism.append(f"{i} ({kind}): try_remap differs: model {str(xm['try'])[:60]} impl {str(xa['try'])[:60]}")
+                if wf:
+                    n_wf += 1
+                    if bytes(xm["rb"][0]) != bytes(xa["full"][0]):
+                        mism.append(f"{i} ({kind}): wf_note holds but replace_base differs from the real remap")
+        # the property speaks about targets that are commit ids; other targets are compared model vs impl only
+        if valid and target and all(ch in HEXD for ch in target) or i == "wit":
+            n_valid += 1
+            ok, why = remap_oracle(text, att, full, target)
+            if not ok:
+                if mk_att and wf is not True:
+                    n_k4 += 1
+                    known("C15-K4 a tracked path containing the marker text \"base_commit_sha\": the byte-level rewrite hits the path "
+                          "line (or falls back to a lossy re-serialisation); the metadata keeps the old base")
+                    if i == "wit":
+                        wit_ok = xa["try"] != ["none"] and '"base_commit_sha": "0ld"' in full and ':"n3w".txt' in full
+                else:
+                    violations.append((f"remapped note differs from the original beyond the base field ({why}); note kind {kind}",
+                                       {"kind": "remap", "note": text, "target": target, "result": full, "model_wf": wf}))
+    obligations.append(("witness: C15_remap_refuted's note is mis-rewritten by the real function (path line changed, base kept)",
+                        wit_ok, ""))
+    cov["remap_cases"] = {"notes": len(notes), "kinds": nk_hist, "valid": n_valid, "wf_note_true": n_wf,
+                          "oracle_failures_in_K4": n_k4}
+
+    # =============================================================== (3) system level
+    items = plan(ctx.tier)
+    res = C.parallel_map(scenario, [(ctx.scratch, ctx.seed, i, o) for i, o in enumerate(items)])
+    kind_hist, fired_hist, skipped = {}, {}, {}
+    n_fired = n_declined = n_commits = 0
+    single_full = [0, 0]
+    multi_full = [0, 0]
+    cmp_cases, remap_cases = [], []
+    samples = []
+    sys_mism = []
+    exec_k_seen = {}
+    for r_ in res:
+        if "error" in r_:
+            violations.append(("engine error " + r_["error"][-300:], {"kind": "engine", "error": r_["error"]}))
+            continue
+        kind_hist[r_["kind"]] = kind_hist.get(r_["kind"], 0) + 1
+        if r_["info"].get("skipped"):
+            skipped[r_["kind"] + ": " + r_["info"]["skipped"]] = skipped.get(r_["kind"] + ": " + r_["info"]["skipped"], 0) + 1
+            continue
+        distinct.add(("sys", r_["kind"], str(r_.get("trace"))))
+        fired = r_["info"].get("fired")
+        n_fired += bool(fired)
+        n_declined += not fired
+        fired_hist[r_["kind"]] = fired_hist.get(r_["kind"], [0, 0])
+        fired_hist[r_["kind"]][0 if fired else 1] += 1
+        if r_["info"].get("same_shas") is False:
+            obligations.append((f"monitor: rewritten commits have the same ids in A and B (scenario {r_['idx']})", False, ""))
+        for c in r_.get("per_commit", []):
+            n_commits += 1
+            if fired:
+                tgt = single_full if r_["info"]["n_new"] == 1 else multi_full
+                tgt[0 if c["full"] else 1] += 1
+        if r_["kind"] == "rebase_exec_k" and r_.get("cmp_cases"):
+            key = f"n={r_['info']['n_new']},k={r_['opts'].get('k')}"
+            exec_k_seen[key] = r_["cmp_cases"][0]["pairs_with_delta"]
+        for c in r_.get("cmp_cases", []):
+            cmp_cases.append((r_["idx"], c))
+        for c in r_.get("remap_cases", []):
+            remap_cases.append((r_["idx"], c))
+        for k_ in r_["known"]:
+            label = {"C15-K1": "C15-K1 the full replay emits cumulative attribution (lines the commit did not add, sessions of other "
+                               "commits); the shortcut copies the original per-commit note",
+                     "C15-K2": "C15-K2 the full replay starts from the end of the range: AI lines a commit adds that do not survive "
+                               "unchanged to the last commit of the range are missing or credited to another session in its note",
+                     "C15-K5": "C15-K5 (root cause C02-K3) the full replay colours a whole re-inserted hunk by one author: in a hunk of "
+                               "added lines that mixes a person and a session, or two sessions, human lines become AI and lines change "
+                               "session; the shortcut keeps the original per-line attribution",
+                     "C15-K3": "C15-K3 prompt counters (total_additions, total_deletions, accepted_lines, overriden_lines) written by the "
+                               "full replay are not those of the original commit's record"}[k_["class"]]
+            known(label)
+        for f in r_["failures"]:
+            violations.append((f"{f['what']} [{r_['kind']}, {r_['info'].get('n_new')} commits] after {str(r_.get('trace'))[:200]}",
+                               {"kind": "system", "scenario": r_["kind"], "index": r_["idx"], "opts": r_["opts"], "seed": ctx.seed,
+                                "failure": f, "trace": r_.get("trace"), "commands": r_.get("log")}))
+        if len(samples) < 4 and r_.get("per_commit"):
+            samples.append({"kind": r_["kind"], "fired": fired, "commits": r_["per_commit"], "trace": r_.get("trace", [])[:8]})
+    # monitors and model correspondence on the real comparator inputs
+    bad_rec = [i for i, c in cmp_cases if not c["parsed"] or not c["rec_paths_ok"]]
+    obligations.append(("monitor: every real diff-tree output parses in the printed format and names only tracked paths "
+                        "(git's pathspec limiting)", not bad_rec, f"scenarios {bad_rec[:5]}"))
+    bad_trk = [i for i, c in cmp_cases if not c["sorted_tracked_is_touched"]]
+    obligations.append(("monitor: the tracked paths handed to the comparator are the AI-touched files of the range",
+                        not bad_trk, f"scenarios {bad_trk[:5]}"))
+    if ctx.model_ok and cmp_cases:
+        cs = [(str(k), C.sx(bl(bytes.fromhex(c["out_hex"]))) + f" {c['npairs']}") for k, (_, c) in enumerate(cmp_cases)]
+        mo = C.run_cases(C.driver_path("remap"), "c15-cmp", cs)
+        gs = C.run_cases(C.driver_path("remap"), "c15-gram", [(k, b.rsplit(" ", 1)[0]) for k, b in cs])
+        for k, (idx, c) in enumerate(cmp_cases):
+            if mo.get(str(k)) != ("1" if c["actual"] else "0"):
+                sys_mism.append(f"scenario {idx}: model comparator {mo.get(str(k))} vs real decision {c['actual']}")
+            g = gs.get(str(k), "")
+            if "(rt 1)" not in g or "(wf 1)" not in g:
+                sys_mism.append(f"scenario {idx}: real diff-tree output is not print_out of an out_ok value: {g[-30:]}")
+    if ctx.model_ok and remap_cases:
+        cs = [(str(k), C.sx(bl(bytes.fromhex(c["orig"]))) + " " + C.sx(bl(c["target"].encode()))) for k, (_, c) in enumerate(remap_cases)]
+        mo = C.run_cases(C.driver_path("remap"), "c15-remap", cs)
+        nwf = 0
+        for k, (idx, c) in enumerate(remap_cases):
+            xm = {x[0]: x[1:] for x in C.sx_parse_many(mo.get(str(k), "")) if isinstance(x, list)}
+            if not xm or xm["try"] == ["none"] or bytes(xm["try"][0][1]) != bytes.fromhex(c["got"]):
+                sys_mism.append(f"scenario {idx}: the note written by the shortcut is not try_remap of the original note")
+            if xm and xm["wf"][0] == 1:
+                nwf += 1
+        obligations.append(("monitor: wf_note holds for every original note the shortcut copied", nwf == len(remap_cases),
+                            f"{nwf}/{len(remap_cases)}"))
+    # deterministic witness of K4 at system level
+    try:
+        wk4 = witness_k4(ctx.scratch)
+        if wk4["fails"]:
+            known("C15-K4 a tracked path containing the marker text \"base_commit_sha\": the byte-level rewrite hits the path "
+                  "line (or falls back to a lossy re-serialisation); the metadata keeps the old base")
+        cov["witness_k4"] = wk4
+    except Exception as e:  # a witness that cannot run is a broken check
+        obligations.append(("witness C15-K4 runs", False, repr(e)[:200]))
+    obligations.append(("tie:correspondence Model/Remap.v vs the real scanning loop and the real rewrite (in-process)",
+                        ctx.model_ok and not mism, "; ".join(mism[:3]) if mism else ("" if ctx.model_ok else "model did not build")))
+    obligations.append(("tie:correspondence Model/Remap.v vs the real comparator inputs/decisions and the notes written by the "
+                        "shortcut (system level)", ctx.model_ok and not sys_mism, "; ".join(sys_mism[:3])))
+    obligations.append(("coverage: the shortcut fired in generated rewrites", n_fired > 0, f"{n_fired}"))
+    cov.update({
+        "evaluations": len(struct) + len(mal) + len(notes) + len(res),
+        "distinct_nontrivial": len(distinct),
+        "rule": "comparator: printed outputs (1-40 pairs, M/A/D/T/R/C/U records, paths with blanks, newlines, colons, non-UTF-8) "
+                "limited to a tracked set, plus mutated outputs; remap: generated notes (pretty/compact/CRLF JSON, marker text in "
+                "paths and prompt texts, escaped values, missing/late/non-string field); system: one scenario = feature range of "
+                "1-4 commits with AI edits by two sessions + upstream + rebase/cherry-pick run with the shortcut on and off from "
+                "copies of the same repository; distinct by input bytes / (kind, edit trace)",
+        "samples": samples,
+        "input_distribution": {"system_kinds": kind_hist, "skipped": skipped},
+        "shortcut_fired": n_fired, "shortcut_declined": n_declined, "fired_by_kind[fired,declined]": fired_hist,
+        "rewritten_commits_compared": n_commits,
+        "full_equality_single_commit_ranges[equal,differ]": single_full,
+        "full_equality_multi_commit_ranges[equal,differ]": multi_full,
+        "exec_k_pairs_with_delta": exec_k_seen,
+        "comparator_inputs_tied": len(cmp_cases), "shortcut_notes_tied": len(remap_cases),
+        "known_class_hits": dict(known_seen),
+        "correspondence_mismatches": len(mism) + len(sys_mism),
+    })
+    return {"obligations": obligations, "violations": violations, "known_seen": sorted(known_seen),
+            "searched": f"{len(struct)} printed + {len(mal)} malformed diff-tree outputs through the real scanning loop; "
+                        f"{len(notes)} notes through the real rewrite; {len(res)} rewrite scenarios run with the shortcut on and off "
+                        f"({n_fired} fired, {n_declined} declined); mismatches: " + "; ".join((mism + sys_mism)[:5]),
+            "coverage": cov}
